@@ -81,6 +81,34 @@ CLAIMED["C15"] = (
     "Trusted: tools/translate.py regular expressions, hook lines, harnesses, one fixed schema.",
     "DESIGN.md C15")
 
+CLAIMED["C14"] = (
+    "Rocq/Coq theorems on the id offset and on population-level append (ids, references, look-up) with the "
+    "offset constants regenerated from the source; read+append histories vs the extracted model",
+    "coq/Properties_C14.v (axiom-free) over coq/Append.v: the offset computed from the regenerated constants of "
+    "SetFileIdIncrement is a multiple of 1000 strictly above the maximum id; for arbitrary populations the earlier "
+    "instances are kept, every appended instance has id and all references (at any nesting depth) shifted by that one "
+    "offset, ids never collide, and a shifted reference resolves to the appended counterpart, never to an earlier "
+    "instance. Tied to the code by sweeping incr against the C++ formula and by ReadExchangeFile + 1-2 "
+    "AppendExchangeFile on generated populations with overlapping id ranges (references in aggregates, selects, "
+    "complex parts), comparing ids and reference lists of the session with the extracted model and with an oracle "
+    "written from the statement.",
+    "That each C++ read path passes addFileId on is covered by the correspondence only (partial). Trusted: "
+    "translator, harness/h_file.cc, tools/p21tok.py, one fixed schema; ids below 2^31.",
+    "DESIGN.md C14")
+CLAIMED["C16"] = (
+    "Rocq/Coq theorems on state letters (regenerated) and on save/load at population level incl. deletion "
+    "and fixed point; three save/load cycles through WriteWorkingFile/ReadWorkingFile vs the extracted model",
+    "coq/gen/WsLetters.v (letters, EntityWfState, WriteWorkingData's switch, the reader's letter test) is regenerated "
+    "from the sources; coq/Properties_C16.v proves (axiom-free): letters are a bijection accepted by the reader and "
+    "never 'E'; for any session, load(save s) is exactly the non-deleted instances with their states and values "
+    "(references to deleted instances unset); the second generation is a fixed point, so saving again reproduces the "
+    "file. Tied to the code by generated (also partially filled, strict-mode) populations x random state assignments "
+    "x save/load/save/load/save, comparing letters, restored states, ids and references with the extracted model and "
+    "with an oracle from the statement (values as in the exchange round trip, byte identity of generations 2 and 3).",
+    "'saving again reproduces the file' holds from the second generation on when instances were deleted (stated in "
+    "Properties_C16.v and DESIGN.md). Trusted: translator, harness, p21tok, one fixed schema.",
+    "DESIGN.md C16")
+
 NOT_APPLICABLE = {}
 
 ALL = ["C%02d" % i for i in range(1, 21)]
